@@ -413,7 +413,7 @@ def r15_7(ctx: Ctx) -> None:
         ctx.call_sites += 1
         cfg = CFG(func)
         stmt = next(a for a in _ancestors(call) if isinstance(a, ast.stmt))
-        start, end = txt(call.args[0]), txt(call.args[1])
+        start, end = (txt(inline_reaching(cfg, stmt, a)) for a in call.args[:2])
         genes = inline_reaching(cfg, stmt, call.args[2])
         ok, why = False, txt(genes)[:100]
         if isinstance(genes, ast.Call) and last_attr(genes) == "get_cds_features" and not genes.args:
